@@ -1229,6 +1229,10 @@ class ClientRequest(ClientRequestBase):
                     "chunked can not be set "
                     'if "Transfer-Encoding: chunked" header is set'
                 )
+            # The header announces chunked framing: the body has to be sent
+            # that way, and without a Content-Length.
+            self.chunked = True
+            self.headers.popall(hdrs.CONTENT_LENGTH, None)
 
         elif self.chunked:
             if hdrs.CONTENT_LENGTH in self.headers:
